@@ -12,6 +12,7 @@ import (
 	"sort"
 
 	"github.com/projectcalico/calico/felix/proto"
+	"github.com/projectcalico/calico/felix/rules"
 
 	"verifharness/nfparse"
 )
@@ -445,4 +446,30 @@ func StripICMPCode(r *proto.Rule) *proto.Rule {
 		r.NotIcmp = &proto.Rule_NotIcmpType{NotIcmpType: v.NotIcmpTypeCode.Type}
 	}
 	return r
+}
+
+// PositiveBlocks counts the positive match blocks the iptables/nftables renderer needs for the rule at the
+// given IP version (source ports, destination ports: more than one multiport split or split + named port sets;
+// source / destination CIDRs: more than one after filtering to the version).  Rules with three or more such
+// blocks hit the known C08 finding (scratch mark bit not reset between blocks); generators of other checks use
+// this to keep them out.  Uses the renderer's own exported helpers, so it cannot drift from the rendering.
+func PositiveBlocks(r *proto.Rule, ipv uint8) int {
+	f := rules.FilterRuleToIPVersion(ipv, r)
+	if f == nil {
+		return 0
+	}
+	n := 0
+	if len(rules.SplitPortList(f.SrcPorts))+len(f.SrcNamedPortIpSetIds) > 1 {
+		n++
+	}
+	if len(rules.SplitPortList(f.DstPorts))+len(f.DstNamedPortIpSetIds) > 1 {
+		n++
+	}
+	if len(f.SrcNet) > 1 {
+		n++
+	}
+	if len(f.DstNet) > 1 {
+		n++
+	}
+	return n
 }
